@@ -31,6 +31,9 @@ var c14Instances string
 func init() {
 	register(&Property{ID: "C14", Run: runC14, Mutants: []Mutant{
 		{Name: "one byte of the pop-count table changed", File: "waroot/src/math/bits/bits_tables.wa", Old: "\t\"\\x00\\x01\\x01\\x02\\x01\\x02\\x02\\x03\\x01\\x02\\x02\\x03\\x02\\x03\\x03\\x04\" +\n\t\"\\x01\\x02\\x02\\x03\\x02\\x03\\x03\\x04\\x02\\x03\\x03\\x04\\x03\\x04\\x04\\x05\" +", New: "\t\"\\x00\\x01\\x01\\x02\\x01\\x02\\x02\\x03\\x01\\x02\\x02\\x03\\x02\\x03\\x03\\x04\" +\n\t\"\\x01\\x02\\x02\\x03\\x02\\x03\\x03\\x04\\x02\\x03\\x03\\x04\\x03\\x04\\x04\\x04\" +", Expect: "std-table :: math/bits.pop8tab"},
+		{Name: "strings.genSplit skips one byte too few after a separator", File: "waroot/src/strings/strings.wa", Old: "\t\ta[i] = s[:m+sepSave]\n\t\ts = s[m+len(sep):]", New: "\t\ta[i] = s[:m+sepSave]\n\t\ts = s[m+len(sep)-1:]", Expect: "port-body :: strings.genSplit"},
+		{Name: "bits.TrailingZeros32 of zero", File: "waroot/src/math/bits/bits.wa", Old: "func TrailingZeros32(x: u32) => int {\n\tif x == 0 {\n\t\treturn 32", New: "func TrailingZeros32(x: u32) => int {\n\tif x == 0 {\n\t\treturn 31", Expect: "port-body :: math/bits.TrailingZeros32"},
+		{Name: "floatBits: the post-rounding copy of the overflow block loses the flag", File: "waroot/src/strconv/atof.wa", Old: "\t\t\tmant = 0\n\t\t\texp = 1<<flt.expbits - 1 + flt.bias\n\t\t\toverflow = true\n", New: "\t\t\tmant = 0\n\t\t\texp = 1<<flt.expbits - 1 + flt.bias\n", Expect: "port-goto-inlining :: strconv.decimal.floatBits:overflow"},
 		{Name: "utf8 continuation mask changed", File: "waroot/src/unicode/utf8/utf8.wa", Old: "maskx = 0b00111111", New: "maskx = 0b00011111", Expect: "std-table :: unicode/utf8.maskx"},
 		{Name: "crc32 Castagnoli polynomial changed", File: "waroot/src/hash/crc32/crc32.wa", Old: "Castagnoli = 0x82f63b78", New: "Castagnoli = 0x82f63b79", Expect: "std-table :: hash/crc32.Castagnoli"},
 		{Name: "hex digit table damaged", File: "waroot/src/encoding/hex/hex.wa", Old: "hextable        = \"0123456789abcdef\"", New: "hextable        = \"0123456789abcdfe\"", Expect: "std-table :: encoding/hex.hextable"},
@@ -293,7 +296,10 @@ func waDecls(std *waStd, files []*waFile) (*litEnv, int) {
 
 func runC14(c *Ctx) {
 	c.Explain = "Decides table agreement of the ported standard-library packages with Go's: every package-level constant or literal table that exists under the same name in the Wa package and in the Go package of the same import path, and whose value was equal when the rule was armed (the frozen instance list c14_instances.txt), still evaluates to the value in GOROOT's sources (go/parser over GOROOT/src, the Wa side read with the repository's parser and re-read as Go expressions; one literal evaluator for both). " +
-		"Names whose values already differed, or that are not literal-only, are not instances (counted in the notes). NOT decided: any function body; behaviour of the ports on inputs."
+		"Names whose values already differed, or that are not literal-only, are not instances (counted in the notes). " +
+		"Rule port-body: every Wa function whose canonical syntax tree (positions, comments, parentheses, receiver spelling and Wa's short type names normalised) equalled the Go function of the same name when the rule was armed (frozen list c14_bodies.txt) still equals the one in GOROOT's sources — agreement of the port with the implementation it was ported from, for every input, follows from the two being the same function. " +
+		"Rule port-goto-inlining: where Go jumps to a labelled block and the port (Wa has no goto) repeats the block, the port holds at least as many exact copies of the block as Go has ways of reaching it. " +
+		"NOT decided: functions that already differ from this GOROOT's version (ported from another Go release, or adapted to Wa), and the agreement of Wa's expression semantics with Go's (shift counts, C01)."
 	goroot := build.Default.GOROOT
 	c.Trusted = []string{"go/parser, go/constant", "the repository's Wa parser as front end for .wa sources", "GOROOT sources (" + goroot + ") as the oracle"}
 	std := LoadWaStd(c, "std-table")
@@ -305,6 +311,13 @@ func runC14(c *Ctx) {
 		}
 	}
 	dump := os.Getenv("VERIF_C14_DUMP") == "1"
+	if os.Getenv("VERIF_C14_DUMP") == "2" {
+		c14PortBodies(c, std, goroot)
+		return
+	}
+	if !dump {
+		c14PortBodies(c, std, goroot)
+	}
 	var pkgs []string
 	for p := range std.Pkgs {
 		pkgs = append(pkgs, p)
